@@ -4,7 +4,8 @@ from .. import lean, proto, gen, util
 
 REQUIRED = ['Petl.C15.' + n for n in (
     'csv_roundtrip write_header_flag append_is_concat append_twice frames_roundtrip pickle_append transport_roundtrip '
-    'json_roundtrip').split()] + ['Petl.Csv.' + n for n in ()]
+    'json_roundtrip csv_codec_ok csv_roundtrip_concrete csv_append_roundtrip').split()] + \
+    ['Petl.Csv.' + n for n in 'read_write read_write_no_error run_writeRow run_writeAll run_escape'.split()]
 
 ALPHA = ['a', 'b', ',', ';', '|', '\t', '"', "'", '\r', '\n', '\r\n', ' ', 'é', 'ß', '€', '\U0001F600', '\\', '0', '']
 TYPED = [None, 1, -2, 2.5, True, False, 'x']
@@ -40,8 +41,8 @@ def run(ctx):
                 'x append sequences; pickle (protocols) with typed cells; json (array, lines) and jsonarrays. Read-back table vs the '
                 'expected table; bytes of to*+append* vs to*(concatenation). Non-trivial: at least one data row with a special character.')
     ctx.assumptions += ['the stdlib codecs (csv, pickle, json, text encodings, gzip, bz2) are lossless on this domain: hypotheses of the '
-                        'theorems, exercised by every case; the csv dialect machinery is additionally modelled in lean/Petl/Csv.lean']
-    ctx.prove(['PetlProofs.Props.C15'], REQUIRED)
+                        'theorems, exercised by every case; csv.writer/csv.reader (QUOTE_MINIMAL, QUOTE_ALL) are modelled in lean/Petl/Csv.lean, proved lossless (Petl.Csv.read_write) and compared with the C module on every run; QUOTE_NONNUMERIC, pickle, json, encodings, gzip and bz2 remain hypotheses']
+    ctx.prove(['PetlProofs.Props.C15', 'PetlProofs.Csv', 'PetlProofs.Props.C15Csv'], REQUIRED)
     rng = ctx.rng
     tmpd = tempfile.mkdtemp(prefix='petl_c15_')
     n = 1200 if ctx.thorough() else 150
@@ -204,8 +205,62 @@ def run(ctx):
                     fail('jsonarrays|header', 'tojsonarrays(output_header=True) does not add exactly the header row', {'table': repr(JT)})
             except Exception as e:   # noqa
                 fail('jsonarrays|raises|%s' % type(e).__name__, 'tojsonarrays raised %r' % e, {'table': repr(JT)})
+        csv_model_tie(ctx, rng)
     finally:
         shutil.rmtree(tmpd, ignore_errors=True)
+
+
+def csv_model_tie(ctx, rng):
+    """the Lean model of csv.writer / csv.reader (lean/Petl/Csv.lean) against CPython's csv module:
+    the text written for adversarial tables, the records read back from it, and the records read from arbitrary text"""
+    n = 3000 if ctx.thorough() else 600
+    lines, expect, meta = [], [], []
+    for i in range(n):
+        d, q = rng.choice([(',', '"'), (';', '"'), ('\t', '"'), ('|', "'"), (',', "'"), (' ', '"')])
+        if rng.random() < 0.6:
+            qa = rng.random() < 0.3
+            rows = [[''.join(rng.choice(ALPHA) for _ in range(rng.choice([0, 0, 1, 2, 3, 5]))) for _ in range(rng.choice([0, 1, 1, 2, 3]))]
+                    for _ in range(rng.choice([0, 1, 2, 3]))]
+            buf = io.StringIO(newline='')
+            w = csv.writer(buf, delimiter=d, quotechar=q, quoting=csv.QUOTE_ALL if qa else csv.QUOTE_MINIMAL)
+            try:
+                for r in rows:
+                    w.writerow(r)
+            except csv.Error:
+                continue
+            text = buf.getvalue()
+            lines.append('csv w %s %d %d %s' % (proto.enc_bool(qa), ord(d), ord(q), proto.enc_table(rows)))
+            expect.append(proto.enc(text))
+            meta.append(('write', repr(rows), d, q, qa))
+            back = [list(r) for r in csv.reader(io.StringIO(text, newline=''), delimiter=d, quotechar=q)]
+            lines.append('csv r %d %d %s' % (ord(d), ord(q), proto.enc(text)))
+            expect.append(proto.enc_table(back))
+            meta.append(('read-written', repr(text), d, q, qa))
+            if back != rows:
+                ctx.spec_fail('csv-stdlib|roundtrip', 'csv.reader(csv.writer(rows)) differs from rows', {'rows': repr(rows), 'delimiter': d, 'quotechar': q})
+        else:
+            text = ''.join(rng.choice(ALPHA + [d, q, q, '\r\n']) for _ in range(rng.choice([0, 1, 2, 4, 8, 12])))
+            try:
+                back = [list(r) for r in csv.reader(io.StringIO(text, newline=''), delimiter=d, quotechar=q)]
+                want = proto.enc_table(back)
+            except csv.Error:
+                want = None
+            lines.append('csv r %d %d %s' % (ord(d), ord(q), proto.enc(text)))
+            expect.append(want)
+            meta.append(('read-arbitrary', repr(text), d, q, None))
+    outs = lean.run_driver(lines)
+    for (kind, what, d, q, qa), want, got in zip(meta, expect, outs):
+        got = got.strip()
+        ctx.count('csvmodel:' + kind)
+        ctx.case(('csvmodel', kind, what, d, q, qa) if len(what) > 8 else None)
+        if want is None:
+            ok = got.endswith('ERR csv')        # csv.Error <-> the model's error flag
+        else:
+            ok = (got == want.strip())
+        ctx.exact(ok, {'kind': kind, 'input': what, 'delimiter': d, 'quotechar': q, 'stdlib': want, 'model': got})
+        if not ok:
+            ctx.corr_fail('csvmodel ' + kind, 'the Lean csv model and the csv module differ',
+                          {'kind': kind, 'input': what, 'delimiter': d, 'quotechar': q, 'quote_all': qa, 'stdlib': want, 'model': got})
 
 
 def replay(d):
